@@ -47,7 +47,7 @@ func c05exec(j run.Job, a *run.Acc) {
 		a.Count("jobs with the non-recursive alternative listed first", 1)
 	}
 	for it := 0; it < j.N; it++ {
-		g := &arithGen{r: r, maxDepth: 2 + r.Intn(j.Param("depth", 6)), zeroBias: []int{0, 5, 25}[r.Intn(3)], ws: c05ws, longChains: true}
+		g := &arithGen{r: r, maxDepth: 2 + r.Intn(j.Param("depth", 6)), zeroBias: []int{0, 5, 25}[r.Intn(3)], ws: c05ws, longChains: true, overflow: j.Family == "mutated"}
 		if g.maxDepth > 4 {
 			g.longChains = false // long chains only around shallow operands, the input would get too long otherwise
 		}
